@@ -11,6 +11,7 @@ mkdir -p "$W/vr" "$W/OUT"
 git -C /repo worktree add --detach "$W/repo" HEAD >/dev/null 2>&1
 mkdir -p "$W/harness"
 rsync -a --exclude target /verif/harness/ "$W/harness/"
+rsync -a --exclude target /verif/harness/ "$W/harness.orig/"   # pristine copy for `diff -ru`
 sed -i "s#path = \"/repo\"#path = \"$W/repo\"#" "$W/harness/Cargo.toml"
 cp /verif/known_findings.json "$W/vr/"
 cp /verif/properties.jsonl "$W/vr/"
